@@ -802,17 +802,12 @@ impl<'a, EntryType: Entry> PathSolution<'a, EntryType> {
                 .expect("valid path encoding should always produce a valid view"),
         );
 
-        let start_ia = interfaces
-            .first()
-            .expect("edges are checked to be not empty")
-            .interface
-            .isd_asn;
-
-        let end_ia = interfaces
-            .last()
-            .expect("edges are checked to be not empty")
-            .interface
-            .isd_asn;
+        // Segments whose hop fields carry no interface ids (malformed input) yield no usable path.
+        let (Some(first_if), Some(last_if)) = (interfaces.first(), interfaces.last()) else {
+            return Ok(None);
+        };
+        let start_ia = first_if.interface.isd_asn;
+        let end_ia = last_if.interface.isd_asn;
 
         let metadata = PathMetadata {
             expiration: expiration.into(),
